@@ -398,6 +398,21 @@ func (ex *Exec) evalIndex(base, idx TV, env *Env) TV {
 	i := ex.term(idx.V, "")
 	switch b := base.V.(type) {
 	case SV:
+		if base.T != nil {
+			if mt, ok := base.T.Underlying().(*types.Map); ok {
+				// m[k] on a heap map: zero value when the key is absent
+				ks, kok := scalarSort(mt.Key())
+				vs, vok := scalarSort(mt.Elem())
+				if kok && vok {
+					m := b.T
+					k := ex.term(idx.V, ks)
+					valA := ex.heapRead(env.st, mapKey(mt)+".val", ArraySort(SInt, ArraySort(ks, vs)))
+					hasA := ex.heapRead(env.st, mapKey(mt)+".has", ArraySort(SInt, ArraySort(ks, SBool)))
+					has := And(Not(Eq(m, IntLit(0))), Select(Select(hasA, m), k))
+					return TV{SV{Ite(has, Select(Select(valA, m), k), zeroTerm(vs))}, mt.Elem()}
+				}
+			}
+		}
 		switch {
 		case b.T.Sort == SStr:
 			return TV{SV{app(SInt, "str.at_", b.T, i)}, types.Typ[types.Uint8]}
